@@ -460,7 +460,7 @@ pub fn random_abstract(rng: &mut Rng, size: usize, break_links: bool) -> Value {
         "therms": therms.iter().map(|&c| json!({"id": c, "tmax": brko(rng, &years[..2]), "tmin": brko(rng, &years[..2])})).collect::<Vec<_>>(),
         "years": years.iter().map(|&c| json!({"id": c, "weeks": [brkp(rng, &weeks[..1])]})).collect::<Vec<_>>(),
         "weeks": weeks.iter().map(|&c| json!({"id": c, "days": [brkp(rng, &days[..1])]})).collect::<Vec<_>>(),
-        "days": days.iter().map(|&c| json!({"id": c})).collect::<Vec<_>>(),
+        "days": days.iter().map(|&c| json!({"id": c, "vals": (0..24).map(|_| 25 * rng.range(0, 4)).collect::<Vec<_>>()})).collect::<Vec<_>>(),
         "ovw": ovw, "ovv": ovv,
     })
 }
